@@ -159,9 +159,15 @@ def run(ctx):
                                 str(d['acts']), str(d['outs']), d['router_publisher'] if c['router'] else '', d['handler'], d['poison_topic']))
         res.count('poison_publishes_observed=%d' % len(pubs))
         res.count('final=%s' % ST[c['final']])
-    for part, chunk in enumerate(C.chunks(good, 500)):
-        r = C.coq_eval(pid, 'cases_%d_%d' % (seed, part), HEADER + 'Definition cases : list c13_case := %s.\n' % C.coq_list([case_term(c) for c in chunk]),
-                       [('R_mis', 'c13_mismatches cases'), ('R_vio', 'c13_violations cases')])
+    from concurrent.futures import ThreadPoolExecutor
+    parts = list(enumerate(C.chunks(good, 300)))
+    def ev(pc):
+        part, chunk = pc
+        return C.coq_eval(pid, 'cases_%d_%d' % (seed, part), HEADER + 'Definition cases : list c13_case := %s.\n' % C.coq_list([case_term(c) for c in chunk]),
+                          [('R_mis', 'c13_mismatches cases'), ('R_vio', 'c13_violations cases')])
+    with ThreadPoolExecutor(max_workers=6) as ex:
+        results = list(ex.map(ev, parts))
+    for (part, chunk), r in zip(parts, results):
         for i in r['R_vio']:
             c = chunk[i]
             res.violations.append(dict(signature='C13/monitor', what='observation rejected by the C13 acceptor (exactly one poison publish of the stamped message iff the handler failed with an accepted error; '
